@@ -749,6 +749,24 @@ class Lemmas:
             for c in P.f.closures_of(ecb.name):
                 good, got = selector_complete(P, c, "C")
                 ok &= self._ob("RESIDUAL", "expand_c-selector-complete", good, "every input-column C is selected", "expand_c selects entries by %s" % got)
+        # after the expansions nobody may put an X (or C) back into an input column: every run-time
+        # construction of DataEntry::X / ::C outside the parser is a write row.entries[col] = .. that is
+        # dominated by !entry_is_input(col) for that same col (a header column can be both the expected
+        # column `<name>_out` of a bidirectional signal and the input column of a signal of that name)
+        nw = 0
+        for v in ("X", "C"):
+            for (b, bb, i, st) in P.constructors("stmt::DataEntry::" + v):
+                if b.is_promoted or b.name.startswith("parser::") or b.name.startswith("stmt::DataEntry::eval") or b.derived:
+                    continue
+                nw += 1
+                cfg = P.cfg(b)
+                cols = [canon(P.call_arg_terms(b, bb2)[1]) for bb2, t in b.calls() if callee_name(t)[0].endswith("IndexMut<I>>::index_mut") and cfg.dominates(bb, bb2)]
+                g = guards_at(P, b, bb)
+                good = len(cols) == 1 and any(x[0] == "call" and x[1] == "DataRowIteratorTestData::entry_is_input" and x[3] is False and len(x[2]) == 2 and x[2][1] == cols[0] for x in g)
+                ok &= self._ob("RESIDUAL", "no-%s-written-into-an-input-column:%s" % (v, b.name.split("::")[-1]), good, "entries[%s] = %s only under !entry_is_input(%s)" % (cols[0] if cols else "?", v, cols[0] if cols else "?"),
+                               "%s writes DataEntry::%s into column `%s` without excluding input columns: when that column is also an input column (e.g. `A_out` both as the expected column of bidirectional `A` and as an input pin), the generators meet an %s in an input column and hit unreachable!()" % (b.name.split("::")[-1], v, cols[0] if cols else "?", v),
+                               "%s:%d" % (b.file, st["span"]["line"]))
+        self.chk.floor("RESIDUAL", "run-time writers of X/C entries", nw, 1)
         eii = P.body(TESTDATA + "::entry_is_input")
         if eii is not None:
             r = set(canon(P.sl(eii).ret(rb)) for rb in P.cfg(eii).return_blocks())
@@ -1516,7 +1534,10 @@ def r_header_lex(P, L, s, d):
             bad = [v for v in vs if not spec.is_skipped(v)]
             return (not bad, "%s carry logos::skip and are never yielded" % vs if not bad else "token kinds %s are yielded by the lexer" % bad)
         if res and res[0]["variants"] == ["Err"]:
-            return (spec.total(), "the header patterns' first-character classes cover every code point, so the header lexer cannot produce an error")
+            u = spec.uncovered()
+            if u is not None and not u.ivs:
+                return (True, "for every code point some header pattern matches that single character, so the header lexer cannot produce an error")
+            return (False, "the header lexer yields an error for %s: no header pattern matches those characters" % ("an unsupported pattern" if u is None else "code points %r" % u))
     return None
 
 
